@@ -31,6 +31,7 @@ class ViaSocksPeer(Peer):
 
     def __init__(self, run):
         self.run = run
+        run.socks_peers.append(self)
         self.buf = bytearray()
         self.state = 'greeting'
         self.stream = None
@@ -74,7 +75,7 @@ class ViaSocksPeer(Peer):
     def connection_lost(self, clean):
         self.gone = True
         sport = getattr(self, 'sport', None)
-        if sport is not None and (self.stream is None or self.stream.gone):
+        if sport is not None and (self.stream is None or self.stream.gone) and sport not in self.run.free_sports:
             self.run.free_sports.append(sport)
 
     def finish(self, ok):
@@ -98,6 +99,7 @@ class C09Run(StateRun):
     vias = ()
 
     def setup(self):
+        self.socks_peers = []
         StateRun.setup(self)
         ch, sim = self.ch, self.sim
         self.mode = 'via' if ch.chance(2, 5, 'mode') else 'scripted'
@@ -158,12 +160,36 @@ class C09Run(StateRun):
         if saddr != '127.0.0.1':
             return StateRun.w_stream_new(self, via=via, sport=sport, target=target, saddr=saddr)
         # an unrelated stream may come from a local port that an earlier (finished) SOCKS connection used
-        if sport is None and self.mode == 'via' and self.free_sports and self.ch.chance(1, 3, 'reuseport'):
+        in_use = self.ports_in_use()
+        if sport is None and self.mode == 'via' and self.free_sports and self.free_sports[0] not in in_use and \
+                self.ch.chance(1, 3, 'reuseport'):
             p = self.free_sports.pop(0)
             self.sim.probe('source-port-reused')
             s = StateRun.w_stream_new(self, via=via, sport=p, target=target or ('reuse%d.example' % p, 80))
             return s
         return StateRun.w_stream_new(self, via=via, sport=sport, target=target)
+
+    port_reused_early = False
+
+    def events_about_port_undelivered(self, port):
+        delivered = self.conn.total_s2c_delivered
+        needle = ':%d ' % port
+        return any(off > delivered and kind == 'STREAM' and ('SOURCE_ADDR=' in line and needle in line + ' ')
+                   for off, kind, line in self.wire if kind == 'STREAM')
+
+    def ports_in_use(self):
+        """local ports of the SOCKS connections that are open (whether or not their request has been seen yet)"""
+        used = set()
+        for p in self.socks_peers:
+            conn = getattr(p, 'conn', None)
+            if conn is not None and not conn.client_gone:
+                # (the local port is the CLIENT's: it is free again when the client has closed its end, not when Tor's
+                # end of the connection is gone)
+                try:
+                    used.add(conn.transport.getHost().port)
+                except Exception:
+                    pass
+        return used
 
     def refuse_policy(self, items):
         from ..ctlpeer import err
@@ -178,8 +204,21 @@ class C09Run(StateRun):
     def local_port(self, connector, drawn):
         # the kernel may hand a later SOCKS connection the local port an earlier, finished one used
         if self.mode == 'via' and connector.dest[1] == 9050 and self.free_sports and self.ch.chance(1, 2, 'reuselport'):
-            self.sim.probe('via-connection-reuses-local-port')
-            return self.free_sports.pop(0)
+            # (never a port that a connection which is still open has: no two live connections share a local port)
+            in_use = self.ports_in_use() | set(s.source[1] for s in self.streams.values() if s.source and not s.gone)
+            free = [p for p in self.free_sports if p not in in_use]
+            late = [p for p in free if self.events_about_port_undelivered(p)]
+            if late and not self.sim.gate('local-port-reused-before-stream-events-delivered'):
+                # (recorded finding: a stream is matched to a connection by address and port alone, so a NEW event of an
+                # EARLIER connection on that port which reaches the controller late is taken for the new connection's)
+                free = [p for p in free if p not in late]
+            elif late:
+                self.port_reused_early = True
+                self.sim.probe('local-port-reused-before-stream-events-delivered')
+            if free:
+                self.free_sports.remove(free[0])
+                self.sim.probe('via-connection-reuses-local-port')
+                return free[0]
         return drawn
 
     def socks_request(self, peer, host, port, sport, saddr='127.0.0.1'):
@@ -529,11 +568,13 @@ class C09Run(StateRun):
             rec = getattr(s, 'via_rec', None)
             if rec is not None:
                 if cid != rec['mc'].id and not rec['mc'].gone:
-                    self.sim.fail('C09.via-stream-wrong-circuit', 'stream %d of the connection through circuit %d was sent to circuit %d' % (
+                    self.sim.fail('C09.via-stream-wrong-circuit' + ('-after-early-port-reuse' if self.port_reused_early else ''),
+                                  'stream %d of the connection through circuit %d was sent to circuit %d' % (
                         sid, rec['mc'].id, cid))
                 rec.setdefault('attached', []).append((sid, cid))
             elif cid != 0:
-                self.sim.fail('C09.unrelated-stream-captured', 'unrelated stream %d (source %r) was attached to circuit %d' % (sid, s.source, cid))
+                self.sim.fail('C09.unrelated-stream-captured' + ('-after-early-port-reuse' if self.port_reused_early else ''),
+                              'unrelated stream %d (source %r) was attached to circuit %d' % (sid, s.source, cid))
         if s is not None and (s.circ is not None or s.status not in ('NEW', 'NEWRESOLVE', 'DETACHED', 'CONTROLLER_WAIT')):
             self.attach_cmds.append((sid, cid))
             self.sim.log('ATTACHSTREAM', sid, cid, 'not-managed')
